@@ -34,6 +34,12 @@ fn gen_stmt(r: &mut Rng, depth: usize, out: &mut Vec<String>) {
 }
 
 pub fn gen(r: &mut Rng) -> Value {
+    if r.chance(1, 5) {
+        // command form: the statement is a command; the condition holds exactly when the value it yields is truthy by
+        // the SAME rule (a command that yields 1 / yes / any other text, not only true / false)
+        let pool = ["true", "false", "0", "no", "NO", "False", "yes", "1", "x", "", " ", " false", "no ", " 0 ", "00", "off", "FALSE", "nO", "TRUE", "True", "2", "-1", "text", "a b"];
+        return json!({ "command_value": r.pick(&pool) });
+    }
     let mut t = vec![];
     gen_stmt(r, 0, &mut t);
     json!({ "tokens": t })
@@ -103,7 +109,30 @@ fn render(t: &str) -> String {
     }
 }
 
+fn run_command_form(v: &str) -> Option<Value> {
+    let want = truthy(v);
+    let mut context = Context::new();
+    duckscriptsdk::load(&mut context.commands).ok()?;
+    let c = format!("set \"{}\"", v);
+    let script = format!("fn yield_value\n  return \"{}\"\nend\nout = not {}\nif {}\n  via_if = set true\nelse\n  via_if = set false\nend\nif false\n  via_elseif = set skipped\nelseif {}\n  via_elseif = set true\nelse\n  via_elseif = set false\nend\nvia_while = set false\nwhile {}\n  via_while = set true\n  goto :wend\nend\n:wend\nif yield_value\n  via_fn = set true\nelse\n  via_fn = set false\nend\n", v, c, c, c, c);
+    match runner::run_script(&script, context, None) {
+        Ok(ctx) => {
+            let g = |n: &str| ctx.variables.get(n).cloned();
+            let exp = Some(want.to_string());
+            if g("out") != Some((!want).to_string()) || g("via_if") != exp || g("via_elseif") != exp || g("via_while") != exp || g("via_fn") != exp {
+                Some(json!({"script": script, "expected_value": want, "not_output": g("out"), "if_branch": g("via_if"), "elseif_branch": g("via_elseif"), "while_entered": g("via_while"), "function_condition": g("via_fn")}))
+            } else {
+                None
+            }
+        }
+        Err(e) => Some(json!({"script": script, "expected_value": want, "error": e.to_string()})),
+    }
+}
+
 pub fn run(input: &Value) -> Option<Value> {
+    if let Some(v) = input["command_value"].as_str() {
+        return run_command_form(v);
+    }
     let ts: Vec<String> = input["tokens"].as_array()?.iter().map(|v| v.as_str().unwrap().to_string()).collect();
     let want = value(&ts)?;
     let mut context = Context::new();
